@@ -27,6 +27,11 @@ func H_C27_advertisedRates() {
 	to := [3]string{vPeerA, vPeerB, vPeerC}[zzverif.Choice("to", 3)]
 	mt := [2]messages.MessageType{messages.MESSAGETYPE_POLL, messages.MESSAGETYPE_REQUEST_POLL}[zzverif.Choice("msgtype", 2)]
 	amt := zzverif.U64("amt_sat")
+	// PPM.Compute is replaced (symbolic side only) by rate XOR amount: injective in the rate for a
+	// fixed amount, so okCompute holds exactly when Setting.Compute applies PPM.Compute to the
+	// advertised rate; the arithmetic of PPM.Compute itself is H_C27_ppmCompute*.
+	zzverif.Override("(*github.com/elementsproject/peerswap/premium.PPM).Compute",
+		func(p *premium.PPM, amtSat uint64) int64 { return p.Value() ^ int64(amtSat) })
 
 	err := env.ps.sendCapability(context.Background(), vID(to), mt)
 	zzverif.Assert(len(env.ln.sends) == 1 && env.ln.sends[0].to == to && env.ln.sends[0].msgType == mt, "C27.one_message_to_recipient")
